@@ -116,7 +116,42 @@ func (l *cellLog) output(e int, op func(int, int) int) outp {
 	}, func() int { return 0 }, nil}
 }
 
-// parseFoldM splits mon=[slow<d>:][ref:[same:]]<base>
+// a carrier that cannot be compared (a slice): one element; Empty and Combine build fresh values
+type vec []int
+
+type vecMonoid struct {
+	e     int
+	op    func(int, int) int
+	delay time.Duration
+}
+
+func (m vecMonoid) Empty() vec { return vec{m.e} }
+
+func (m vecMonoid) Combine(a, b vec) vec {
+	if m.delay > 0 {
+		time.Sleep(m.delay)
+	}
+	return vec{m.op(a[0], b[0])}
+}
+
+func outVec(ch <-chan vec) outp {
+	return outp{func() string {
+		select {
+		case v, ok := <-ch:
+			if !ok {
+				return "closed"
+			}
+			if len(v) != 1 {
+				return "vbad" + strconv.Itoa(len(v))
+			}
+			return "v" + strconv.Itoa(v[0])
+		default:
+			return "empty"
+		}
+	}, func() int { return len(ch) }, nil}
+}
+
+// parseFoldM splits mon=[slow<d>:][vec:][ref:[same:]]<base>
 func parseFoldM(name string) (delay time.Duration, ref bool, base string) {
 	parts := strings.Split(name, ":")
 	for len(parts) > 1 {
@@ -124,7 +159,7 @@ func parseFoldM(name string) (delay time.Duration, ref bool, base string) {
 		case strings.HasPrefix(parts[0], "slow"):
 			d, _ := strconv.Atoi(parts[0][4:])
 			delay = time.Duration(d) * time.Millisecond
-		case parts[0] == "ref":
+		case parts[0] == "ref", parts[0] == "vec":
 			ref = true
 		}
 		parts = parts[1:]
@@ -146,6 +181,20 @@ func init() {
 				return bm.Combine(a, b)
 			})
 			return []chan int{in}, []outp{outInt(fork.Fold(ctx, c.par, in, m))}
+		}
+		if strings.Contains(":"+c.mon, ":vec:") {
+			vin := make(chan vec)
+			go func() {
+				defer close(vin)
+				for x := range in {
+					select {
+					case vin <- vec{x}:
+					case <-ctx.Done(): // teardown: keep draining so that this goroutine always exits
+					}
+				}
+			}()
+			m := vecMonoid{e: bm.Empty(), op: bm.Combine, delay: delay}
+			return []chan int{in}, []outp{outVec(fork.Fold[vec](ctx, c.par, vin, m))}
 		}
 		cin := make(chan *cell)
 		log := &cellLog{same: strings.Contains(":"+c.mon, ":same:"), byVal: map[int]*cell{}}
